@@ -1,0 +1,34 @@
+//go:build verif
+
+// Verification hooks for property C10 (read-only): compiled only with -tags verif.
+
+package meeklite
+
+import "net"
+
+// VerifC10Buffered reports an upper bound of the number of received bytes a meek_lite
+// connection holds: every queued response body is at most maxPayloadLength bytes
+// (io.LimitReader in roundTrip), plus the partially consumed body of the previous Read.
+// ok is false when c is not a meek_lite connection.  Must only be called while no Read is
+// in progress.
+func VerifC10Buffered(c net.Conn) (n int, ok bool) {
+	mc, ok := c.(*meekConn)
+	if !ok {
+		return 0, false
+	}
+	n = len(mc.workerRdChan) * maxPayloadLength
+	if mc.rdBuf != nil {
+		n += mc.rdBuf.Len()
+	}
+	return n, true
+}
+
+// VerifC10Backlog reports the lengths of the worker channels (responses not yet read,
+// writes not yet sent).
+func VerifC10Backlog(c net.Conn) (rd, wr int, ok bool) {
+	mc, ok := c.(*meekConn)
+	if !ok {
+		return 0, 0, false
+	}
+	return len(mc.workerRdChan), len(mc.workerWrChan), true
+}
